@@ -320,6 +320,8 @@ def check(run):
     # whether a policy HAS an error handler is asked of the final policy class: a handler mixed in by inheritance (the way the
     # library's own benchmarks add facets) must be seen, or the handlers of its methods abort without reporting anything
     crules.facet_rules(run, "C02-facets")
+    run.rule("C02-handlers", "the handler setters return the previous handler; the initial handler of vectored_error<P, Provider> comes from the provider", floor=4)
+    crules.handler_api_rules(run, "C02-handlers")
     # pre-generated tables: the decoder rebuilds each method's cells; its error cells must be the ones update numbers
     from . import c13
     from .. import astq, witness as _w
